@@ -187,6 +187,11 @@ func (regManager *RegistrationManager) ValidateRegistration(reg *DecoyRegistrati
 		return false, errIncompleteReg
 	} else if reg.Keys == nil {
 		return false, errIncompleteReg
+	} else if len(reg.Keys.SharedSecret) < regIDLen/2 {
+		// Same minimum the registrars enforce (regprocessor.ErrSharedSecret). Key derivation
+		// accepts any length, so a message without a shared secret would otherwise become a
+		// registration whose transport identifier is a constant that anyone can compute.
+		return false, errIncompleteReg
 	} else if reg.PhantomIp == nil {
 		return false, errIncompleteReg
 	} else if reg.RegistrationSource == nil {
